@@ -278,7 +278,16 @@ class C09(Prop):
         cases = []
         for kind in ("cont", "quant", "ord", "cat"):
             for _ in range(per_kind):
-                cases.append(gen_case(rng, kind, tier))
+                c = gen_case(rng, kind, tier)
+                r = rng.random()
+                if r < 0.25 and kind != "ord" and c.get("order") is None:   # (custom str_nan + a given order + NaN
+                    # is refused by the unchanged code with an AssertionError naming '__NAN__': not generated)
+                    c["str_nan"] = rng.choice(["MISSING", "n/a"])
+                if rng.random() < 0.2 and c["cls"] != "ContinuousDiscretizer":
+                    # constructed with another min_freq, the case's min_freq is set before fit
+                    c["late_min_freq"] = rng.choice([0.02, 0.05, 0.4])
+                    c["late_how"] = rng.choice(["set_params", "attr"])
+                cases.append(c)
         for _ in range(24 if tier == "quick" else 400):
             cases.append(band_case(rng))
         return cases
@@ -336,19 +345,30 @@ class C09(Prop):
         vo = None
         if case["order"] is not None:
             vo = {"f": GroupedList([dec(t) for t in case["order"]])}
+        # custom missing-value sentinel (reported under the default name below); min_freq given at construction
+        # or, for half of the flagged cases, set afterwards (set_params / attribute, as a grid search does)
+        custom = case.get("str_nan")
+        kw = {"str_nan": custom} if custom else {}
+        late = case.get("late_min_freq")
+        mf0 = late if late else mf
         try:
             if cls == "ContinuousDiscretizer":
-                d = ContinuousDiscretizer(["f"], min_freq=mf, copy=True)
+                d = ContinuousDiscretizer(["f"], min_freq=mf, copy=True, **kw)
             elif cls == "QuantitativeDiscretizer":
-                d = QuantitativeDiscretizer(["f"], min_freq=mf, copy=True)
+                d = QuantitativeDiscretizer(["f"], min_freq=mf0, copy=True, **kw)
             elif cls == "QualitativeDiscretizer":
-                d = QualitativeDiscretizer(["f"], min_freq=mf, values_orders=vo, copy=True,
-                                           ordinal_features=["f"] if kind == "ord" else None)
+                d = QualitativeDiscretizer(["f"], min_freq=mf0, values_orders=vo, copy=True,
+                                           ordinal_features=["f"] if kind == "ord" else None, **kw)
             else:
                 quanti = (["f"] if kind in ("cont", "quant") else []) + (["z"] if "z" in frame else [])
                 quali = (["f"] if kind == "cat" else []) + (["w"] if "w" in frame else [])
-                d = Discretizer(quanti, quali, min_freq=mf, values_orders=vo, copy=True,
-                                ordinal_features=["f"] if kind == "ord" else None)
+                d = Discretizer(quanti, quali, min_freq=mf0, values_orders=vo, copy=True,
+                                ordinal_features=["f"] if kind == "ord" else None, **kw)
+            if late and cls != "ContinuousDiscretizer":
+                if case.get("late_how") == "attr":
+                    d.min_freq = mf
+                else:
+                    d.set_params(min_freq=mf)
             d.fit(X, y)
         except AssertionError as e:
             out["res"], out["err"] = "assert", str(e)[:200]
@@ -361,16 +381,22 @@ class C09(Prop):
             return out
         order = d.values_orders["f"]
         out["res"] = "ok"
-        out["keys"] = [enc(k) for k in order]
-        out["content"] = [[enc(k), [enc(v) for v in vs]] for k, vs in order.content.items()]
+
+        def ren(v):
+            """the custom sentinel is reported as '__NAN__'; a literal '__NAN__' met there is a foreign value"""
+            if custom and isinstance(v, str):
+                return STR_NAN if v == custom else ("<literal __NAN__>" if v == STR_NAN else v)
+            return v
+        out["keys"] = [enc(ren(k)) for k in order]
+        out["content"] = [[enc(ren(k)), [enc(ren(v)) for v in vs]] for k, vs in order.content.items()]
         # the property by plain counting: rows per fitted modality after transform
         try:
             Xt = pd.DataFrame({k: (v.copy() if hasattr(v, "copy") else v) for k, v in frame.items()})
             tr = d.transform(Xt)["f"]
             vc = tr.value_counts(dropna=False)
-            counts = {(STR_NAN if is_nan(k) else k): int(c) for k, c in vc.items()}
-            lpv = d.labels_per_values["f"]
-            out["by_leader"] = [[enc(k), int(counts.get(lpv.get(k), 0))] for k in order]
+            counts = {(STR_NAN if is_nan(k) else ren(k)): int(c) for k, c in vc.items()}
+            lpv = {k: ren(v) for k, v in d.labels_per_values["f"].items()}
+            out["by_leader"] = [[enc(ren(k)), int(counts.get(lpv.get(k), 0))] for k in order]
             out["n_transformed"] = int(sum(counts.values()))
         except Exception as e:  # noqa: BLE001
             out["by_leader"] = None
